@@ -87,7 +87,7 @@ def o1_worker(job):
         (kind, val, exc), assumptions, handled_conds = pysem.translate_callable(ctor, args, handled)
         out["handled_by_callers"] = handled
     except pysem.Unsupported as e:
-        return dict(out, status="inconclusive", why="PySem: unsupported " + str(e))
+        return o1_grid_fallback(out, expr, kids, pre, L, "PySem: unsupported " + str(e))
     out["assumptions"] = assumptions
     if kind != L.kind_of(expr):
         # Python result type differs from the operator's sort: every evaluation is a type confusion
@@ -158,6 +158,33 @@ def o1_worker(job):
         bad_any = bad_any or bad
     out["replay"] = verdicts
     return dict(out, status="violated" if bad_any else "not-reproduced")
+
+
+def o1_grid_fallback(out, expr, kids, pre, L, why):
+    """PySem cannot model the constructor: bug hunting only - a grid of argument values (incl. negative, zero, empty,
+    multi-character) is judged by the real code (all call sites) against Z3 on the ground atoms."""
+    import z3
+    names = [str(k) for k in kids]
+    ints = [-7, -3, -2, -1, 0, 1, 2, 3, 5, 7]
+    strs = ["", "a", "ab", "abc", "hello", "0", "12", "-5", "a\nb"]
+    pools = [ints if L.kind_of(k) == "int" else strs if L.kind_of(k) == "str" else BOOL_SAMPLES for k in kids]
+    pre_t = z3.parse_smt2_string("(assert %s)" % pre, decls=L.DECLS)[0] if pre else None
+    tried = 0
+    for combo in itertools.product(*pools):
+        m = dict(zip(names, combo))
+        if pre_t is not None and not z3.is_true(z3.simplify(L.ground(pre_t, m))):
+            continue
+        tried += 1
+        if tried > 1500:
+            break
+        verdicts, bad_any = [], False
+        for atom in L.atoms_for(expr, m):
+            sites, zi, bad = L.judge_model(atom, m)
+            verdicts.append(dict(atom=L.ground(atom, m).sexpr(), isla=sites, z3=zi))
+            bad_any = bad_any or bad
+        if bad_any:
+            return dict(out, status="violated", model=m, replay=verdicts, solver_s=0.0, python=out.get("python", "?"), why=why + " (grid fallback)")
+    return dict(out, status="inconclusive", why="%s; %d grid points agree with Z3 (bug hunting only)" % (why, tried))
 
 
 def classify_o1(res) -> str:
@@ -362,7 +389,11 @@ def o2_worker(rtext):
     pat = pr.unwrap()[1]
     out["pattern"] = pat
     if _WRAP is None:
-        return dict(out, status="inconclusive", why="cannot locate re.<fn>(f'..{args[1]}..', args[0]) in evaluate_z3_seq_in_re")
+        # The way the pattern is applied is not one PySem/SRE2SMT can model (e.g. a helper function, a compiled pattern).
+        # Fallback, bug hunting only: solver-generated witness strings around the language boundary are judged by the real
+        # code and by Z3.  A disagreement is a (replayed) violation; agreement leaves the obligation inconclusive.
+        return differential_fallback(out, R, rtext, atom, culprit, L,
+                                     "cannot locate re.<fn>(f'..{args[1]}..', args[0]) in evaluate_z3_seq_in_re")
     fn, pre, suf = _WRAP
     full = pre + pat + suf
     try:
@@ -370,7 +401,7 @@ def o2_worker(rtext):
     except re.error as e:
         return probe("a", "pattern %r does not compile: %s" % (full, e))
     except sre2smt.Unsupported as e:
-        return dict(out, status="inconclusive", why="SRE2SMT unsupported: %s (pattern %r)" % (e, full))
+        return differential_fallback(out, R, rtext, atom, culprit, L, "SRE2SMT unsupported: %s (pattern %r)" % (e, full))
     except RecursionError:
         return dict(out, status="inconclusive", why="SRE2SMT recursion")
     sym = z3.Union(z3.Intersect(lang, z3.Complement(R)), z3.Intersect(R, z3.Complement(lang)))
@@ -391,6 +422,42 @@ def o2_worker(rtext):
     return dict(out, status="violated" if bad else "not-reproduced", model=s,
                 replay=[dict(atom=z3.InRe(z3.StringVal(s), R).sexpr(), isla=sites, z3=zi)],
                 key=culprit(R, rtext, direction))
+
+
+def differential_fallback(out, R, rtext, atom, culprit, L, why):
+    import z3
+    x = z3.String("x")
+    nl = z3.Re(z3.StringVal("\n"))
+    anyc = z3.AllChar(z3.ReSort(z3.StringSort()))
+    queries = [
+        ("member", z3.InRe(x, R)),
+        ("non-member", z3.InRe(x, z3.Complement(R))),
+        ("member+newline", z3.InRe(x, z3.Intersect(z3.Concat(R, nl), z3.Complement(R)))),
+        ("member+char", z3.InRe(x, z3.Intersect(z3.Concat(R, anyc), z3.Complement(R)))),
+        ("char+member", z3.InRe(x, z3.Intersect(z3.Concat(anyc, R), z3.Complement(R)))),
+        ("proper-prefix", z3.InRe(x, z3.Intersect(z3.Complement(R), z3.Complement(z3.Re(z3.StringVal("")))))),
+    ]
+    tried = 0
+    t = 0.0
+    for name, q in queries:
+        r = smt.decide("(declare-const x String)", [smt.portable(q.sexpr())], ["x"], timeout_ms=4000)
+        t += r["s"]
+        s = r["values"].get("x") if r["verdict"] == "sat" else None
+        if not isinstance(s, str):
+            continue
+        cands = [s]
+        if name == "proper-prefix" and len(s) > 1:
+            cands = [s[:-1], s[1:]]
+        for c in cands:
+            tried += 1
+            sites, zi, bad = L.judge_model(atom, {"x": c})
+            if bad:
+                direction = "raises" if any(v.startswith("raised") for v in sites.values()) else (
+                    "isla-accepts" if zi == "false" else "isla-rejects")
+                return dict(out, status="violated", model=c, solver_s=t, why="differential fallback (%s witness)" % name,
+                            replay=[dict(atom=z3.InRe(z3.StringVal(c), R).sexpr(), isla=sites, z3=zi)], key=culprit(R, rtext, direction))
+    return dict(out, status="inconclusive", solver_s=t,
+                why="%s; %d solver-generated boundary witnesses agree with Z3 (bug hunting only)" % (why, tried))
 
 
 def run_o2(run, tier):
